@@ -72,17 +72,53 @@ def run(pid, pc, tier, seed, replay):
 
     # ---- 3. correspondence (and spec verdicts on the real outputs)
     n = pc["n"][tier]
-    res = C.run_suite(pid, pc["suite"], seed, n, extra=pc.get("harness_args", {}).get(tier))
+    only_ok = pc["suite"] not in ("C14", "C17")
+    runs = []
+    if replay:
+        rp = C.load_json(replay)
+        rseed = int(rp.get("seed", seed))
+        extra = None
+        rn = n
+        if only_ok and rp.get("case") is not None and str(rp.get("case")).isdigit():
+            extra = ["--only", str(rp["case"])]
+            rn = int(rp["case"]) + 1
+        runs.append(C.run_suite(pid, pc["suite"], rseed, rn, tag="replay", extra=extra))
+        seed = rseed
+    else:
+        # corpus first: pinned (seed, case) pairs of past failures and of seeded changes
+        corpus = C.load_json(os.path.join(C.VERIF, "corpus", f"{pid}.json")) if os.path.exists(
+            os.path.join(C.VERIF, "corpus", f"{pid}.json")) else []
+        by_seed = {}
+        for e in corpus:
+            by_seed.setdefault(int(e["seed"]), set()).add(int(e["case"]))
+        if only_ok:
+            for k, (cs, cases) in enumerate(sorted(by_seed.items())):
+                runs.append(C.run_suite(pid, pc["suite"], cs, max(cases) + 1, tag=f"corpus{k}",
+                                        extra=["--only", ",".join(str(c) for c in sorted(cases))]))
+        coverage["corpus_cases_replayed"] = sum(len(v) for v in by_seed.values()) if only_ok else 0
+        runs.append(C.run_suite(pid, pc["suite"], seed, n, extra=pc.get("harness_args", {}).get(tier)))
     corr_obligations = 1
     corr_ok = True
-    if "error" in res:
-        corr_ok = False
-        path = C.write_replay(pid, "infra", {"what": res["error"], "log": res.get("log", "")})
-        coverage.update({"obligations": obligations + corr_obligations, "discharged": discharged,
-                         "samples": [res["error"]]})
-        C.write_evidence(pid, tier, seed, coverage, time.time() - t0, 1, assumptions)
-        violation(pid, path, no_input=True)
-        return 1
+    for r_ in runs:
+        if "error" in r_:
+            corr_ok = False
+            path = C.write_replay(pid, "infra", {"what": r_["error"], "log": r_.get("log", "")})
+            coverage.update({"obligations": obligations + corr_obligations, "discharged": discharged,
+                             "samples": [r_["error"]]})
+            C.write_evidence(pid, tier, seed, coverage, time.time() - t0, 1, assumptions)
+            violation(pid, path, no_input=True)
+            return 1
+    res = runs[-1]
+    # merge the corpus runs into the main result (their seeds are recorded per failure)
+    for r_ in runs[:-1]:
+        for k in ("compared", "spec_ok", "inconclusive", "pairs_total", "distinct"):
+            res[k] += r_[k]
+        for m in r_["mismatches"]:
+            m["_run"] = r_
+        for m in r_["spec_fail"]:
+            m["_run"] = r_
+        res["mismatches"] = r_["mismatches"] + res["mismatches"]
+        res["spec_fail"] = r_["spec_fail"] + res["spec_fail"]
 
     stats = res["stats"]
     coverage.update({
@@ -107,7 +143,7 @@ def run(pid, pc, tier, seed, replay):
     # implementation vs specification failures: genuine failing inputs of the property
     reported = set()
     for sf in res["spec_fail"]:
-        text = json.dumps(sf, ensure_ascii=False)
+        text = json.dumps({k: v for k, v in sf.items() if k != "_run"}, ensure_ascii=False)
         k = match_known(pid, text)
         if k:
             line = f"KNOWN-FINDING: property={pid} {k['text']}"
@@ -119,9 +155,10 @@ def run(pid, pc, tier, seed, replay):
         reported.add(sf["case"])
         path = C.write_replay(pid, "spec", {
             "what": "the real crate's result violates the executable Lean specification of the property",
-            "seed": seed, "suite": pc["suite"], "case": sf["case"], "operation": sf["op"], "real": sf["real"],
-            "spec_verdict": sf["spec"], "case_lines": C.case_lines(res, sf["case"]),
-            "rerun": f"VERIF_SEED={seed} bin/check {pid} {tier}"})
+            "seed": sf.get("_run", res)["stats"].get("seed", seed), "suite": pc["suite"], "case": sf["case"],
+            "operation": sf["op"], "real": sf["real"],
+            "spec_verdict": sf["spec"], "case_lines": C.case_lines(sf.get("_run", res), sf["case"]),
+            "rerun": f"bin/check {pid} {tier} --replay <this file>"})
         violations += 1
         violation(pid, path)
         if violations >= 3:
@@ -138,7 +175,7 @@ def run(pid, pc, tier, seed, replay):
             if "error" in r2:
                 break
             for sf in r2["spec_fail"]:
-                if not match_known(pid, json.dumps(sf, ensure_ascii=False)):
+                if not match_known(pid, json.dumps({k: v for k, v in sf.items() if k != "_run"}, ensure_ascii=False)):
                     found = (extra_seed, sf, r2)
                     break
             if found:
@@ -156,11 +193,11 @@ def run(pid, pc, tier, seed, replay):
                 "what": "the correspondence between the Lean model and the real crate no longer checks; "
                         "no input violating the property's specification was found",
                 "broken": f"correspondence {pc['suite']} (model {pc['lean_module']})",
-                "seed": seed, "suite": pc["suite"], "case": mm["case"], "operation": mm["op"],
-                "real": mm["real"], "model": mm["model"],
+                "seed": mm.get("_run", res)["stats"].get("seed", seed), "suite": pc["suite"], "case": mm["case"],
+                "operation": mm["op"], "real": mm["real"], "model": mm["model"],
                 "disagreements": len(res["mismatches"]),
-                "case_lines": C.case_lines(res, mm["case"]),
-                "rerun": f"VERIF_SEED={seed} bin/check {pid} {tier}"})
+                "case_lines": C.case_lines(mm.get("_run", res), mm["case"]),
+                "rerun": f"bin/check {pid} {tier} --replay <this file>"})
             violations += 1
             violation(pid, path, no_input=True)
     elif res["mismatches"]:
